@@ -652,10 +652,12 @@ def simple_witness(segs, path, litbytes, ic, overshoot):
             if not v or not path.startswith(s.suffix, j) or not seg_accepts(s, v, ic):
                 return False
             if s.kind == 'rx' and s.suffix:
-                # does the leftmost-first match of rule+suffix on the rest of the path end the capture somewhere else?
+                # can the rule match the first byte of the literal text that follows it? then the leftmost-first (greedy)
+                # match of the segment - whose literal part may be cut shorter in the tree, as far as siblings share it -
+                # can run past the intended value (D31); C03_witness_rx covers exactly the rules that AVOID that byte
+                b0 = s.suffix[:1]
                 try:
-                    m = re.match(b'(' + s.rule + b')' + re.escape(s.suffix), path[pos:], re.S)
-                    if m is None or m.end(1) != len(v):
+                    if any(re.fullmatch(s.rule, c, re.S) for c in (b0, v + b0, b0 + v, v + b0 + v)):
                         overshoot.append(s.value)
                 except re.error:
                     pass
@@ -1091,16 +1093,16 @@ def split_top(s, sep):
     out.append(cur)
     return out
 
-MATCH_ENV = dict(host=None, hosts=None)     # request Host and the World's Hosts table, for `hosts:ID` members
-
-def eval_matcher(expr, path, accept_raw, accept_params, ps):
+def eval_matcher(expr, path, accept_raw, accept_params, ps, env=None):
+    # env = dict(host=<request Host>, hosts=<the World's Hosts table>) for `hosts:ID` members (passed explicitly: judges run
+    # concurrently in threads)
     """reference semantics of the bundled matchers and combinators:
     returns (accepted, path, params); a rejecting matcher returns its inputs unchanged.
     `hosts:ID` is decided with the reference resolver over the tracked domains; ValueError = cannot be decided here"""
     if expr == 'any':
         return True, path, ps
     if expr.startswith('hosts:'):
-        hs = (MATCH_ENV['hosts'] or {}).get(int(expr[6:])); host = MATCH_ENV['host']
+        hs = ((env or {}).get('hosts') or {}).get(int(expr[6:])); host = (env or {}).get('host')
         if hs is None or host is None or hs['tainted'] or any(c >= 0x80 for c in host):
             raise ValueError(expr)
         if not all(well_formed_for_c02(d, {}) for d in hs['doms']):
@@ -1141,12 +1143,12 @@ def eval_matcher(expr, path, accept_raw, accept_params, ps):
         if expr.startswith('and('):
             p, q = path, ps
             for m in members:
-                ok, p, q = eval_matcher(m, p, accept_raw, accept_params, q)
+                ok, p, q = eval_matcher(m, p, accept_raw, accept_params, q, env)
                 if not ok:
                     return False, path, ps      # a rejecting And leaves no trace
             return True, p, q
         for m in members:
-            ok, p, q = eval_matcher(m, path, accept_raw, accept_params, ps)
+            ok, p, q = eval_matcher(m, path, accept_raw, accept_params, ps, env)
             if ok:
                 return True, p, q
         return False, path, ps
@@ -1193,9 +1195,8 @@ def judge_c13(ops, impl):
             expr = g.get('matchers', {}).get(rid)
             if expr is None or rid not in w.routers:
                 break
-            MATCH_ENV['host'] = decB(toks[4]); MATCH_ENV['hosts'] = w.hosts
             try:
-                ok, mp2, mq = eval_matcher(expr, path, hdrs.get(b'Accept', b''), mp, {})
+                ok, mp2, mq = eval_matcher(expr, path, hdrs.get(b'Accept', b''), mp, {}, dict(host=decB(toks[4]), hosts=w.hosts))
             except Exception:
                 break
             if ok:
